@@ -103,7 +103,7 @@ CORPUS = [
     # rule 1 on a chain headed by a latent with a parent: R -> U -> L -> C, U -> A (projection has A <-> C);
     # three nested latents; a latent whose children are partly latent (witnesses of seeded bug C16b)
     {"op": "simplify", "d": _d([["R", "U"], ["U", "L"], ["L", "C"], ["U", "A"]], ["U", "L"])},
-    {"op": "simplify", "d": _d([["P", "U1"], ["U1", "U2"], ["U2", "U3"], ["U3", "C"], ["U1", "A"], ["U2", "B"]], ["U1", "U2", "U3"])},
+    {"op": "simplify", "d": _d([["PA", "U1"], ["U1", "U2"], ["U2", "U3"], ["U3", "C"], ["U1", "A"], ["U2", "B"]], ["U1", "U2", "U3"])},
     {"op": "simplify", "d": _d([["R", "U"], ["U", "L1"], ["U", "L2"], ["U", "A"], ["L1", "C1"], ["L2", "C2"]], ["U", "L1", "L2"])},
     {"op": "simplify", "d": _d([["R", "U"], ["U", "L"], ["L", "C"], ["U", "A"], ["U_prime", "A"], ["U_prime", "R"]], ["U", "L"])},
     # several bidirected edges next to observed nodes called u_1 / u_0,u_2 (witnesses of seeded bug C16a)
